@@ -60,8 +60,8 @@ def tamper_cases(rng, msgs):
     while the bytes physically exist in the datagram."""
     out = []
     for label, m in msgs:
-        if not label.startswith(("v1-", "v2c-", "v3-")):
-            continue
+        if not label.startswith(("v1-", "v2c-", "v3-")) or "report" in label:
+            continue  # (the body of a Report PDU is opaque to the library: it is never decoded, so nothing inside it is judged)
         ver = "v1" if label.startswith("v1-") else "v2c" if label.startswith("v2c-") else "v3"
         els = []
 
@@ -80,6 +80,17 @@ def tamper_cases(rng, msgs):
                 off = ce
                 idx += 1
         walk(0, len(m), len(m), 0)
+        # (b) lower the declared length of a constructed element: its children now run past it while
+        # the bytes still exist in the enclosing element
+        for off, cs, ce, pend in els:
+            if cs - off != 2 or not (m[off] & 0x20) or ce - cs == 0:
+                continue
+            ln = ce - cs
+            for d in sorted({1, 2, 3, ln // 2, ln}):
+                if 0 < d <= ln:
+                    t = bytearray(m)
+                    t[off + 1] = ln - d
+                    out.append((ver, bytes(t), "tamper-lower:%s" % label))
         for off, cs, ce, pend in els:
             if cs - off != 2 or off == 0:
                 continue  # short form only, not the top element
@@ -169,8 +180,8 @@ def rig_r(chk, tier, seed):
                     chk.violation("panic:%s" % o[1].split(": ")[0].replace("/repo/", ""), "message decoder panicked on %s: %s" % (m.hex()[:80], o[1][:120]), {"m": m.hex()})
                 elif k == "alone":
                     alone_ok[label] = o[0] == "ok"
-                elif o[0] == "ok" and alone_ok.get(label.replace("tamper:", ""), True):
-                    chk.violation("msg-%s" % k, "[%s] %s message (%s) was accepted: %s" % (variant, k, label, m.hex()[:160]),
+                elif o[0] == "ok" and alone_ok.get(label.replace("tamper-lower:", "").replace("tamper:", ""), True):
+                    chk.violation("msg-%s" % (label.split(":")[0] if k == "tamper" else k), "[%s] %s message (%s) was accepted: %s" % (variant, k, label, m.hex()[:160]),
                                   {"rig": "R", "variant": variant, "kind": k, "label": label, "m": m.hex()})
         st[variant] = {"cases": cnt, "x_not_decodable_alone_skipped": skipped[0]}
         chk.seen(cnt)
